@@ -41,7 +41,7 @@ var c17ends = []int{0, 'a', 0xFF, 0x100, 0x101, 0x2000, 0xFFFE}
 
 // probes that are never range endpoints: characters whose low 8 or 16 bits alias a boundary character, the replacement
 // character, supplementary planes
-var c17extraProbes = []int{0x161, 0x1ff, 0x200, 0x2061, 0xff61, 0xfffd, 0x10000, 0x10041, 0x10061, 0x100ff, 0x10100, 0x1000a, 0x2000b, 0x12000, 0x1f600, 0x10ffff}
+var c17extraProbes = []int{0xffff, 0x1f64f, 0x1f650, 0x1f618, 0x161, 0x1ff, 0x200, 0x2061, 0xff61, 0xfffd, 0x10000, 0x10041, 0x10061, 0x100ff, 0x10100, 0x1000a, 0x2000b, 0x12000, 0x1f600, 0x10ffff}
 
 func c17probes() []int {
 	out := c17endProbes()
@@ -359,6 +359,32 @@ func genC17(g *Gen) {
 		for _, rg := range [][2]int{{0x10000, 0x10FFFF}, {0x10000, math.MaxInt32}, {0xFFFF, 0x10000}, {0x10041, 0x10041}, {0x1F600, 0x1F600}} {
 			g.Run("ranges above U+FFFE", []Ev{{"op": "new", "target": tg}, {"op": "add", "lo": rg[0], "hi": rg[1], "ref": "A"}, {"op": "add", "lo": 'a', "hi": 0x2000, "ref": "B"},
 				{"op": "add", "lo": rg[0], "hi": rg[0], "ref": "nil"}, {"op": "add", "lo": rg[0], "hi": rg[1], "ref": "B"}, {"op": "clear"}, {"op": "add", "lo": rg[0], "hi": rg[1], "ref": "A"}})
+		}
+	}
+	// ranges above, at and across the end of the configured range (U+FFFE), registered in every order of two and (sampled) three
+	{
+		hr := [][2]int{{0x1F600, 0x1F64F}, {0xFFFF, 0xFFFF}, {0x10000, 0x10FFFF}, {0x100, 0x10FFFF}, {0, 0xFFFF}, {0, 0xFFFE}, {0x100, 0xFFFE}, {0xFFFE, 0x10000}, {0x1F610, 0x1F620}}
+		for _, tg := range []string{"map", "word", "tokenizer"} {
+			refs := []string{"A", "B", "nil"}
+			if tg == "word" {
+				refs = []string{"A", "nil"}
+			}
+			var hops []Ev
+			for _, rg := range hr {
+				for _, rf := range refs {
+					hops = append(hops, Ev{"op": "add", "lo": rg[0], "hi": rg[1], "ref": rf})
+				}
+			}
+			hops = append(hops, Ev{"op": "clear"})
+			for i, o1 := range hops {
+				for j, o2 := range hops {
+					g.Run("ranges above and across U+FFFE in every order:"+tg, []Ev{{"op": "new", "target": tg}, cloneEv(o1), cloneEv(o2)})
+					if (i+j)%3 == 0 || g.Thorough() {
+						o3 := hops[(i*7+j*3)%len(hops)]
+						g.Run("ranges above and across U+FFFE in every order:"+tg, []Ev{{"op": "new", "target": tg}, cloneEv(o1), cloneEv(o2), cloneEv(o3)})
+					}
+				}
+			}
 		}
 	}
 	for _, tg := range []string{"map", "tokenizer", "tokread", "tokfunc"} {
